@@ -37,6 +37,7 @@ class World(object):
         self.held = Held()   # results the caller still holds: verified unchanged, then edited, before the next operation
         self.nspell = 0
         self.elsewhere = None   # the directory the caller has changed to (None: the scratch disk itself)
+        self.renamebufs = []
         self.reused = {}     # (caller, kind) -> long-lived SFile / Recfile object re-open()ed per file
         self.cur = 0         # caller of the operation being executed
         self.nreuse = 0
@@ -129,6 +130,13 @@ def _handed(w, op, tab):
     # what is handed over is the caller's WORK BUFFER (a copy of the model's rows): the caller refills it as soon as
     # the call has returned, before it does anything else
     buf = tab.copy()
+    if op.get("rename_after") and tab.dtype.names:
+        # ... and, rarely, RENAMES the fields of its buffer in place afterwards (arr.dtype.names = ...): the buffer gets
+        # a dtype object of its own so that nothing else shares the renamed one
+        dt2 = np.dtype([(nm, tab.dtype.fields[nm][0]) for nm in tab.dtype.names])
+        buf = np.empty(tab.shape, dtype=dt2)
+        buf[...] = tab
+        w.renamebufs.append(buf)
     w.workbufs.append(buf)
     if nd and tab.ndim == 1 and tab.shape[0] == nd[0] * nd[1] and nd[0] > 1 and nd[1] > 1:
         w.run.fault("chunk_handed_over_as_2d_array")
@@ -336,6 +344,14 @@ def execute(script, run, env):
                 if scribble(w.workbufs):
                     run.fault("caller_refilled_its_work_buffer_after_a_write")
                 del w.workbufs[:]
+            if w.renamebufs:
+                for b in w.renamebufs:
+                    try:
+                        b.dtype.names = tuple("%s_r%d" % (nm, j) for j, nm in enumerate(b.dtype.names))
+                        run.fault("caller_renamed_the_fields_of_its_buffer_in_place")
+                    except Exception:
+                        pass
+                del w.renamebufs[:]
             fn = OPS.get(op["k"])
             if fn is None:
                 run.event(c, op["k"], "", "unknown-op")
@@ -509,6 +525,7 @@ def op_create(w, op, mods):
         except Exception:
             pass
     existed = os.path.exists(w.path(p))
+    old_stat = os.stat(w.path(p)) if existed else None
     if existed:
         if old is None:
             run.fault("create_over_stale_bytes")
@@ -549,6 +566,15 @@ def op_create(w, op, mods):
             run.fail("rec.create.raises", feats, "%s(%s, table %s x %d rows, header=%r, delim=%r) raised %r"
                      % (op["entry"], p, T.descr_of(tab.dtype), tab.shape[0], hdr, delim, e))
         return
+    if op.get("same_tick") and old_stat is not None:
+        # coarse file time stamps (or a restore that keeps them): the replacement carries the time stamp of the file it
+        # replaced -- and, being the same columns in another order, it has the same size
+        try:
+            os.utime(w.path(p), ns=(old_stat.st_atime_ns, old_stat.st_mtime_ns))
+            if os.path.getsize(w.path(p)) == old_stat.st_size:
+                run.fault("replacement_with_same_size_and_time_stamp")
+        except OSError:
+            pass
     w.files[p] = m
     run.states.add(_fstate(m))
     run.trans.add("%s|create|%s|ok" % (st, op["entry"]))
@@ -840,8 +866,12 @@ def op_write(w, op, mods):
         # the caller first passes a header= argument that cannot be used (a list of pairs instead of a dict, a dict
         # holding something that cannot be copied) -- rejected -- and then repeats the write correctly
         bad = [("date", "2007"), ("n", 3)] if op["badhdr"] == "pairs" else {"date": "2007", "gen": (x for x in ())}
+        arg_bad = arg
+        if op.get("badhdr_other") and isinstance(arg, np.ndarray) and arg.dtype.names:
+            # ... and the table offered first differs from the one written afterwards (the same rows in the other byte order)
+            arg_bad = arg.byteswap().view(arg.dtype.newbyteorder())
         try:
-            h["obj"].write(arg, header=bad)
+            h["obj"].write(arg_bad, header=bad)
             refused = False
         except Exception:
             refused = True
@@ -1712,7 +1742,8 @@ def op_observe(w, op, mods):
             elif what == "name":
                 obj.get_filename() if h["kind"] == "SFile" else obj.filename
             elif what == "header" and h["kind"] == "SFile":
-                obj.get_header()
+                # "get a copy of the header": the caller owns what it gets and edits it
+                _scribble(w, obj.get_header())
         except Exception:
             pass            # (which of these a half-written object supports is not the subject; values are)
     run.fault("caller_looked_at_an_open_object")
